@@ -78,6 +78,26 @@ PROPS = {
             enum("operator-table", "TestC03OperatorTable"),
         ],
     ),
+    "C04": dict(
+        technique="PBT with a constructed oracle (source and expected text are built together, never parsed back) + validity predicate for number display + exhaustive character x position x escaping table",
+        level_text="Lines and option groups are assembled from literal chunks over printable ASCII and multi-byte characters in which every escapable character is written "
+                   "escaped or, where legal, raw (the first character of a line is drawn from its own classes), inline expressions of each type (numbers through "
+                   "variables: integral up to 2^53 and beyond, fractional, tiny, huge; booleans; strings containing special characters), 0-3 tags over many characters, "
+                   "trailing comments that look like commands/tags/expressions, and edge blanks. Expected: text = trimmed concatenation of the chunks' meanings and the "
+                   "values' display forms; tags in order and absent from the text; comment absent; option count and order preserved; Disabled exactly when a "
+                   "condition is present and false. Exhaustive: every character x {first, middle, last} x {raw, escaped} in a line and in an option. Search, not proof.",
+        level_note="Number display is a predicate: integral |x| <= 2^53 exactly the integer digits (0 for both zeros); beyond 2^53 any text that reads back exactly; "
+                   "otherwise a text that reads back exactly with no more significant digits than the shortest round-trip form. Not generated (statement silent or excluded "
+                   "by the grammar): raw '[', an escaped bracket as first character, a literal backslash directly before a bracket (the markup phase would read it as an "
+                   "escape), NaN and infinities, strings with markup characters.",
+        rule="1-3 lines + 0-4 options per case, each of 1-5 parts; non-trivial = at least one escape or interpolation, or tags together with a comment; distinct = "
+             "distinct serialised cases.",
+        assumptions=["interpolated numbers are separated from neighbouring literals by ':' / ';' so that the displayed number can be isolated"],
+        subs=[
+            rapid("rendering", "TestC04Rendering", 10000, 100000),
+            enum("character-table", "TestC04CharacterTable"),
+        ],
+    ),
     "C05": dict(
         technique="PBT + native fuzzing with a differential validity oracle (independent error listeners on the same grammar) and a constructed accept/reject catalogue",
         level_text="Arbitrary bytes, fragment soups, token/line mutations of all repository fixtures, node-boundary and byte-offset reader "
